@@ -92,7 +92,7 @@ func Analyze(criteria *tracev1.QueryRequest, metadata []*commonv1.Metadata, ss [
 	}
 	rules := []logical.OptimizeRule{
 		logical.NewPushDownOrder(criteria.OrderBy),
-		logical.NewPushDownMaxSize(int(limitParameter + criteria.GetOffset())),
+		logical.NewPushDownMaxSize(int(limitParameter) + int(criteria.GetOffset())),
 	}
 	if err := logical.ApplyRules(p, rules...); err != nil {
 		return nil, err
